@@ -94,7 +94,7 @@ var amountKinds = []weighted{
 }
 
 var recvKinds = []weighted{
-	{60, "user"}, {30, "fresh"}, {4, "fresh32"}, {6, "module-blocked"}, {2, "distribution"}, {3, "bad-checksum"}, {3, "wrong-prefix"},
+	{60, "user"}, {30, "fresh"}, {4, "fresh32"}, {5, "user32"}, {6, "module-blocked"}, {2, "distribution"}, {3, "bad-checksum"}, {3, "wrong-prefix"},
 	{2, "empty"}, {2, "hex"}, {2, "uppercase"}, {2, "garbage"}, {2, "token-contract"}, {1, "spaces"},
 }
 
@@ -298,6 +298,11 @@ func (w *world) genSpec(r *rand.Rand, fullStack bool) *spec {
 		s.Receiver = s.recvAcc.String()
 	case "fresh32":
 		s.recvAcc = sdk.AccAddress(freshBytes(32))
+		s.Receiver = s.recvAcc.String()
+	case "user32":
+		// a 32-byte account whose last 20 bytes are those of an existing user (who holds vouchers and tokens of his own)
+		u := w.users[r.Intn(len(w.users))]
+		s.recvAcc = sdk.AccAddress(append(freshBytes(12), u.Bytes()...))
 		s.Receiver = s.recvAcc.String()
 	case "module-blocked":
 		names := []string{transfertypes.ModuleName, aggtypes.ModuleName, authtypes.FeeCollectorName, govtypes.ModuleName, stakingtypes.BondedPoolName}
